@@ -261,7 +261,19 @@ func (in *Interp) visitInstr(fr *frame, instr ssa.Instruction) continuation {
 		fr.env[instr] = fr.get(instr.X)
 
 	case *ssa.Convert:
-		fr.env[instr] = in.conv(instr.Type(), instr.X.Type(), fr.get(instr.X))
+		x := fr.get(instr.X)
+		if s, ok := x.(Str); ok && onlyLenUses(instr) {
+			if _, conc := s.Concrete(); !conc && !s.hasAtoms() {
+				if sl, isSl := instr.Type().Underlying().(*types.Slice); isSl {
+					if k, _ := basicKind(sl.Elem()); k == types.Int32 {
+						// []rune(s) used only by len(): rune count as a formula, no forks
+						fr.env[instr] = lazyRunes{s: s}
+						break
+					}
+				}
+			}
+		}
+		fr.env[instr] = in.conv(instr.Type(), instr.X.Type(), x)
 
 	case *ssa.MakeInterface:
 		fr.env[instr] = Iface{T: canonType(instr.X.Type()), V: fr.get(instr.X)}
@@ -1038,6 +1050,8 @@ func (in *Interp) callBuiltin(caller *frame, pos token.Pos, fn *ssa.Builtin, arg
 			return goInt(len(x))
 		case *Map:
 			return goInt(x.Len())
+		case lazyRunes:
+			return symInt(types.Int, runeCountTerm(x.s.bytes()))
 		}
 		panic(engineErr(fmt.Sprintf("len: %T", args[0])))
 
@@ -1066,4 +1080,50 @@ func (in *Interp) callBuiltin(caller *frame, pos token.Pos, fn *ssa.Builtin, arg
 		return recv
 	}
 	panic(engineErr("unknown built-in: " + fn.Name()))
+}
+
+// lazyRunes is []rune(s) whose only use is len().
+type lazyRunes struct{ s Str }
+
+func onlyLenUses(instr *ssa.Convert) bool {
+	refs := instr.Referrers()
+	if refs == nil || len(*refs) == 0 {
+		return false
+	}
+	for _, r := range *refs {
+		c, ok := r.(*ssa.Call)
+		if !ok {
+			if _, dbg := r.(*ssa.DebugRef); dbg {
+				continue
+			}
+			return false
+		}
+		b, ok := c.Call.Value.(*ssa.Builtin)
+		if !ok || b.Name() != "len" {
+			return false
+		}
+	}
+	return true
+}
+
+// runeCountTerm: number of runes Go's decoder finds in bs (invalid bytes count
+// one each), as a 64-bit term.
+func runeCountTerm(bs []SByte) *Term {
+	n := len(bs)
+	runes := decodeAllRunes(bs)
+	boundary := make([]*Term, n+1)
+	for i := range boundary {
+		boundary[i] = FalseT
+	}
+	boundary[0] = TrueT
+	for i := 0; i < n; i++ {
+		for k := 1; k <= 4 && i+k <= n; k++ {
+			boundary[i+k] = Or(boundary[i+k], And(boundary[i], runes[i].w[k]))
+		}
+	}
+	cnt := BVC(64, 0)
+	for i := 0; i < n; i++ {
+		cnt = BVAdd(cnt, Ite(boundary[i], BVC(64, 1), BVC(64, 0)))
+	}
+	return cnt
 }
